@@ -1,6 +1,7 @@
 /-
 Helper lemmas behind Props/C17: what subtotal_posts, by_payee_posts,
-day_of_week_posts and collapse_posts emit, as "group sums" of their input.
+day_of_week_posts and collapse_posts emit, as "group sums" of their input, for
+any valuation of the postings, and how such stages compose.
 -/
 import LedgerModel.Lemmas.RegroupSums
 import LedgerModel.Lemmas.RegroupRuns
@@ -12,16 +13,57 @@ open List
 
 /-- `rows` replaces the groups of `posts` (postings with equal `grp`) by their
     exact per-commodity sums: one row per group (`rowKey` names the group a row
-    stands for), every group present, nothing else, and the totals agree. -/
-structure GroupSums {K : Type} [DecidableEq K] (grp rowKey : RPost → K) (posts rows : List RPost) : Prop where
-  each : ∀ r ∈ rows, ∀ c, r.amount.den c = sumDen (posts.filter (fun p => grp p = rowKey r)) c
+    stands for), every group present, nothing else, and the totals agree.
+    `vin` is the value a posting contributes, `vout` the value a row carries. -/
+structure GroupSums {K : Type} [DecidableEq K] (vin vout : RPost → Value) (grp rowKey : RPost → K)
+    (posts rows : List RPost) : Prop where
+  each : ∀ r ∈ rows, ∀ c, (vout r).den c = sumDenBy vin (posts.filter (fun p => grp p = rowKey r)) c
   covered : ∀ p ∈ posts, ∃ r ∈ rows, rowKey r = grp p
   noExtra : ∀ r ∈ rows, ∃ p ∈ posts, grp p = rowKey r
   nodup : (rows.map rowKey).Nodup
-  total : ∀ c, sumDen rows c = sumDen posts c
-  qty : AllQty rows
+  total : ∀ c, sumDenBy vout rows c = sumDenBy vin posts c
+  qty : ∀ r ∈ rows, isQty (vout r) = true
+
+theorem sumDenBy_congr {v v' : RPost → Value} {ps : List RPost} (h : ∀ p ∈ ps, v p = v' p) (c : Comm) :
+    sumDenBy v ps c = sumDenBy v' ps c := by
+  induction ps with
+  | nil => rfl
+  | cons p ps ih =>
+    simp only [sumDenBy, wsum] at ih ⊢
+    rw [h p (by simp), ih (fun q hq => h q (by simp [hq]))]
+
+theorem GroupSums.congr_vin {K : Type} [DecidableEq K] {vin vin' vout : RPost → Value} {grp rowKey : RPost → K}
+    {posts rows : List RPost} (h : GroupSums vin vout grp rowKey posts rows) (he : ∀ p ∈ posts, vin p = vin' p) :
+    GroupSums vin' vout grp rowKey posts rows :=
+  ⟨fun r hr c => by
+      rw [h.each r hr c]
+      exact sumDenBy_congr (fun p hp => he p (List.mem_filter.mp hp).1) c,
+   h.covered, h.noExtra, h.nodup, fun c => by rw [h.total c]; exact sumDenBy_congr he c, h.qty⟩
+
+theorem GroupSums.congr_vout {K : Type} [DecidableEq K] {vin vout vout' : RPost → Value} {grp rowKey : RPost → K}
+    {posts rows : List RPost} (h : GroupSums vin vout grp rowKey posts rows) (he : ∀ r ∈ rows, vout r = vout' r) :
+    GroupSums vin vout' grp rowKey posts rows :=
+  ⟨fun r hr c => by rw [← he r hr]; exact h.each r hr c,
+   h.covered, h.noExtra, h.nodup, fun c => by rw [← h.total c]; exact (sumDenBy_congr he c).symm,
+   fun r hr => by rw [← he r hr]; exact h.qty r hr⟩
 
 /-! ### subtotal_posts -/
+
+/-- what subtotal_posts adds for a posting (`post.amount`; 0 stands for a null amount) -/
+def rawAmt (p : RPost) : Value := (subAmt p).getD (.int 0)
+
+/-- every `post.amount` is a proper quantity: no posting is a compound (multi-commodity) one -/
+def GoodAmts (ps : List RPost) : Prop := ∀ p ∈ ps, ∃ v, subAmt p = some v ∧ isQty v = true
+
+/-- decidable form of the first half of `GoodAmts` -/
+def noCompound (ps : List RPost) : Bool := ps.all (fun p => (subAmt p).isSome)
+
+theorem subAmt_some {p : RPost} {v : Value} (h : subAmt p = some v) : p.amount = v := by
+  unfold subAmt at h
+  split at h <;> simp_all
+
+theorem rawAmt_eq_amount {p : RPost} {v : Value} (h : subAmt p = some v) : rawAmt p = p.amount := by
+  rw [subAmt_some h]; simp [rawAmt, h]
 
 theorem addAll_accum (ps : List RPost) (st st' : SubState) (h : st.addAll ps = .ok st') :
     st'.values = accum (fun p => p.account) acctStep st.values ps ∧ st'.posts = st.posts ++ ps := by
@@ -31,26 +73,52 @@ theorem addAll_accum (ps : List RPost) (st st' : SubState) (h : st.addAll ps = .
     simp only [SubState.addAll, SubState.add] at h
     split at h
     · simp [bind, Except.bind] at h
-    · simp only [bind, Except.bind] at h
-      have := ih _ h
-      simp only [accum, List.foldl_cons] at this ⊢
-      exact ⟨this.1, by rw [this.2]; simp⟩
+    · split at h
+      · simp [bind, Except.bind] at h
+      · simp only [bind, Except.bind] at h
+        have := ih _ h
+        simp only [accum, List.foldl_cons] at this ⊢
+        exact ⟨this.1, by rw [this.2]; simp⟩
+
+theorem den_int_zero (c : Comm) : (Value.int 0).den c = 0 := by
+  simp [Value.den]
+
+theorem den_bal_nil (c : Comm) : (Value.bal []).den c = 0 := rfl
 
 theorem acctStep_ok (c : Comm) :
-    StepOK (fun av : AcctVal => isQty av.value = true) (fun p => isQty p.amount = true)
-      (fun av => av.value.den c) (fun p => p.amount.den c) acctStep := by
+    StepOK (fun av : AcctVal => isQty av.value = true ∧ (av.null = true → av.value = .int 0))
+      (fun p => ∃ v, subAmt p = some v ∧ isQty v = true)
+      (fun av => av.value.den c) (fun p => (rawAmt p).den c) acctStep := by
   constructor
-  · intro p hp; exact ⟨hp, rfl⟩
-  · intro v p hv hp
-    exact ⟨vplus_isQty _ _ (isAcc_of_isQty hv) hp, vplus_den _ _ (isAcc_of_isQty hv) hp c⟩
+  · intro p ⟨v, hv, hq⟩
+    have h1 : acctStep none p = { value := v, virt := p.virt, null := false } := by
+      simp [acctStep, hv]
+    have h2 : rawAmt p = v := by simp [rawAmt, hv]
+    rw [h1, h2]
+    exact ⟨⟨hq, by simp⟩, rfl⟩
+  · intro av p ⟨hv, hn⟩ ⟨v, hpv, hq⟩
+    have h2 : rawAmt p = v := by simp [rawAmt, hpv]
+    rw [h2]
+    by_cases hnull : av.null = true
+    · have h1 : acctStep (some av) p = { av with value := vplus (.bal []) v, null := false } := by
+        simp [acctStep, hpv, hnull]
+      rw [h1]
+      refine ⟨⟨vplus_isQty _ _ rfl hq, by simp⟩, ?_⟩
+      show (vplus (.bal []) v).den c = av.value.den c + v.den c
+      rw [vplus_den _ _ rfl hq c, hn hnull, den_bal_nil, den_int_zero]
+    · have h1 : acctStep (some av) p = { av with value := vplus av.value v } := by
+        simp [acctStep, hpv, hnull]
+      rw [h1]
+      exact ⟨⟨vplus_isQty _ _ (isAcc_of_isQty hv) hq, fun h => absurd h hnull⟩,
+             vplus_den _ _ (isAcc_of_isQty hv) hq c⟩
 
-theorem sumDen_map_sumBy (m : AMap AcctVal) (f : String × AcctVal → RPost)
-    (hf : ∀ e, (f e).amount = e.2.value) (c : Comm) :
-    sumDen (m.map f) c = AMap.sumBy (fun av => av.value.den c) m := by
+theorem sumDen_map_sumBy {V : Type} (m : AMap V) (f : String × V → RPost) (μ : V → Rat) (c : Comm)
+    (hf : ∀ e, ((f e).value).den c = μ e.2) :
+    sumDen (m.map f) c = AMap.sumBy μ m := by
   induction m with
   | nil => rfl
   | cons e m ih =>
-    simp only [List.map_cons, sumDen, wsum, AMap.sumBy, hf] at ih ⊢
+    simp only [List.map_cons, sumDen, sumDenBy, wsum, AMap.sumBy, hf] at ih ⊢
     rw [ih]
 
 theorem minDate_mem (ps : List RPost) (h : ps ≠ []) : ∃ p ∈ ps, p.date = minDate ps := by
@@ -66,32 +134,40 @@ theorem minDate_mem (ps : List RPost) (h : ps ≠ []) : ∃ p ∈ ps, p.date = m
       · exact ⟨p, by simp, by omega⟩
       · exact ⟨r, by simp [hr], by omega⟩
 
+/-- the shape of the rows one subtotal_posts object reports -/
+structure Generated (title : String) (xid : Nat) (date : Int) (r : RPost) : Prop where
+  payee : r.payee = title
+  xid : r.xid = xid
+  date : r.date = date
+  same : r.amount = r.value
+  line : r.line = 0
+
 /-- what one subtotal_posts object reports after being fed `ps` -/
-theorem subState_report (ps : List RPost) (hq : AllQty ps) (st : SubState)
-    (h : SubState.empty.addAll ps = .ok st) (title : String) :
-    GroupSums (fun p => p.account) (fun r => r.account) ps (st.report title) ∧
-    (∀ r ∈ st.report title, r.payee = title ∧ r.date = minDate ps) := by
+theorem subState_report (ps : List RPost) (hq : GoodAmts ps) (st : SubState)
+    (h : SubState.empty.addAll ps = .ok st) (title : String) (xid : Nat) (hasReal : String → Bool) :
+    GroupSums rawAmt (fun r => r.value) (fun p => p.account) (fun r => r.account) ps (st.report title xid hasReal) ∧
+    (∀ r ∈ st.report title xid hasReal, Generated title xid (minDate ps) r) := by
   obtain ⟨hv, hp⟩ := addAll_accum ps _ _ h
   simp only [SubState.empty, List.nil_append] at hv hp
   cases ps with
   | nil =>
     simp only [SubState.report, hp, List.isEmpty_nil, if_true]
-    exact ⟨⟨by simp, by simp, by simp, by simp, fun c => rfl, by simp [AllQty]⟩, by simp⟩
+    exact ⟨⟨by simp, by simp, by simp, by simp, fun c => rfl, by simp⟩, by simp⟩
   | cons p0 ps0 =>
-    have hrep : st.report title = st.values.map (fun kv =>
-        { line := 0, xid := 0, date := minDate st.posts, payee := title, account := kv.1,
-          virt := kv.2.virt, amount := kv.2.value }) := by
+    have hrep : st.report title xid hasReal = st.values.map (fun kv =>
+        { line := 0, xid := xid, date := minDate st.posts, payee := title, account := kv.1,
+          virt := !hasReal kv.1, amount := kv.2.value, value := kv.2.value, vdate := maxDate st.posts }) := by
       simp [SubState.report, hp]
     have key : ∀ c, _ := fun c => accum_spec (acctStep_ok c) (fun p => p.account) (p0 :: ps0) hq
       ([] : AMap AcctVal) (by simp [AMap.keys]) (by intro k v hk; simp [AMap.get?] at hk)
     rw [← hv] at key
     have hn := (key "").1
-    have hmem : ∀ r ∈ st.report title, ∃ kv ∈ st.values, r.account = kv.1 ∧ r.amount = kv.2.value ∧
-        r.payee = title ∧ r.date = minDate (p0 :: ps0) := by
+    have hmem : ∀ r ∈ st.report title xid hasReal, ∃ kv ∈ st.values, r.account = kv.1 ∧ r.value = kv.2.value ∧
+        Generated title xid (minDate (p0 :: ps0)) r := by
       intro r hr
       rw [hrep] at hr
       obtain ⟨kv, hkv, rfl⟩ := List.mem_map.mp hr
-      exact ⟨kv, hkv, rfl, rfl, rfl, by rw [hp]⟩
+      exact ⟨kv, hkv, rfl, rfl, ⟨rfl, rfl, by rw [hp], rfl, rfl⟩⟩
     refine ⟨⟨?_, ?_, ?_, ?_, ?_, ?_⟩, ?_⟩
     · intro r hr c
       obtain ⟨kv, hkv, ha, hv', _⟩ := hmem r hr
@@ -99,13 +175,14 @@ theorem subState_report (ps : List RPost) (hq : AllQty ps) (st : SubState)
       have hg := AMap.mem_get? hn (k := kv.1) (v := kv.2) hkv
       have := h3 kv.1
       simp only [muAt, hg, Option.map_some, Option.getD_some, AMap.get?, Option.map_none, Option.getD_none] at this
+      show r.value.den c = _
       rw [hv', ha, this]
-      simp only [sumDen]; grind
+      simp only [sumDenBy]; grind
     · intro p hp'
       have := ((key "").2.2.2.1 p.account).mpr (Or.inr ⟨p, hp', rfl⟩)
       obtain ⟨kv, hkv, he⟩ := List.mem_map.mp this
-      refine ⟨{ line := 0, xid := 0, date := minDate st.posts, payee := title, account := kv.1,
-                virt := kv.2.virt, amount := kv.2.value }, ?_, he⟩
+      refine ⟨{ line := 0, xid := xid, date := minDate st.posts, payee := title, account := kv.1,
+                virt := !hasReal kv.1, amount := kv.2.value, value := kv.2.value, vdate := maxDate st.posts }, ?_, he⟩
       rw [hrep]; exact List.mem_map.mpr ⟨kv, hkv, rfl⟩
     · intro r hr
       obtain ⟨kv, hkv, ha, _, _⟩ := hmem r hr
@@ -117,26 +194,30 @@ theorem subState_report (ps : List RPost) (hq : AllQty ps) (st : SubState)
       exact hn
     · intro c
       obtain ⟨_, _, _, _, h5⟩ := key c
-      rw [hrep, sumDen_map_sumBy _ _ (fun _ => rfl), h5]
-      simp only [AMap.sumBy, sumDen]; grind
+      show sumDen _ c = _
+      rw [hrep, sumDen_map_sumBy _ _ (fun av => av.value.den c) c (fun _ => rfl), h5]
+      simp only [AMap.sumBy, sumDenBy]; grind
     · intro r hr
       obtain ⟨kv, hkv, _, hv', _⟩ := hmem r hr
       have hg := AMap.mem_get? hn (k := kv.1) (v := kv.2) hkv
+      show isQty r.value = true
       rw [hv']
-      exact (key "").2.1 kv.1 kv.2 hg
+      exact ((key "").2.1 kv.1 kv.2 hg).1
     · intro r hr
-      obtain ⟨_, _, _, _, h1, h2⟩ := hmem r hr
-      exact ⟨h1, h2⟩
+      obtain ⟨_, _, _, _, hgen⟩ := hmem r hr
+      exact hgen
 
-theorem subtotal_groups (posts rows : List RPost) (hq : AllQty posts) (h : subtotal posts = .ok rows) :
-    GroupSums (fun p => p.account) (fun r => r.account) posts rows := by
+theorem subtotal_groups (posts rows : List RPost) (hq : GoodAmts posts) (h : subtotal posts = .ok rows) :
+    GroupSums rawAmt (fun r => r.value) (fun p => p.account) (fun r => r.account) posts rows ∧
+    ∀ r ∈ rows, r.xid = 0 ∧ r.amount = r.value := by
   simp only [subtotal, bind, Except.bind] at h
   split at h
   · cases h
   · rename_i st hst
     simp only [pure, Except.pure, Except.ok.injEq] at h
     subst h
-    exact (subState_report posts hq st hst _).1
+    have := subState_report posts hq st hst ("- " ++ fmtPrinted (maxDate st.posts)) 0 (hasRealIn posts)
+    exact ⟨this.1, fun r hr => ⟨(this.2 r hr).xid, (this.2 r hr).same⟩⟩
 
 /-! ### putting classes of groups side by side -/
 
@@ -178,12 +259,12 @@ theorem wsum_filter_classes {J : Type} [DecidableEq J] (w : RPost → Rat) (cls 
       · simp [h]
 
 /-- group sums of the classes `js` of a partition `cls`, reported class by class -/
-theorem groupSums_classes {K J : Type} [DecidableEq K] [DecidableEq J]
+theorem groupSums_classes {K J : Type} [DecidableEq K] [DecidableEq J] (vin vout : RPost → Value)
     (grp rowKey : RPost → K) (proj : K → J) (cls : RPost → J) (hcls : ∀ p, proj (grp p) = cls p)
     (posts : List RPost) (js : List J) (hn : js.Nodup) (rowsOf : J → List RPost)
-    (hg : ∀ j ∈ js, GroupSums grp rowKey (posts.filter (fun p => cls p = j)) (rowsOf j))
+    (hg : ∀ j ∈ js, GroupSums vin vout grp rowKey (posts.filter (fun p => cls p = j)) (rowsOf j))
     (hall : ∀ p ∈ posts, cls p ∈ js) :
-    GroupSums grp rowKey posts (js.flatMap rowsOf) := by
+    GroupSums vin vout grp rowKey posts (js.flatMap rowsOf) := by
   have hproj : ∀ j ∈ js, ∀ r ∈ rowsOf j, proj (rowKey r) = j := by
     intro j hj r hr
     obtain ⟨p, hp, he⟩ := (hg j hj).noExtra r hr
@@ -220,12 +301,13 @@ theorem groupSums_classes {K J : Type} [DecidableEq K] [DecidableEq J]
         apply hne
         rw [← hproj j hj x hx, ← hproj j' hj' y hy, e])
   · intro c
-    have h1 : sumDen posts c = wsum (fun p => p.amount.den c) (posts.filter (fun p => decide (cls p ∈ js))) := by
+    have h1 : sumDenBy vin posts c = wsum (fun p => (vin p).den c) (posts.filter (fun p => decide (cls p ∈ js))) := by
+      unfold sumDenBy
       congr 1
       symm
       apply List.filter_eq_self.mpr
       intro p hp; simpa using hall p hp
-    rw [h1, wsum_filter_classes _ cls js hn posts, sumDen, wsum_flatMap]
+    rw [h1, wsum_filter_classes _ cls js hn posts, sumDenBy, wsum_flatMap]
     congr 1
     apply List.map_congr_left
     intro j hj
@@ -235,10 +317,10 @@ theorem groupSums_classes {K J : Type} [DecidableEq K] [DecidableEq J]
     exact (hg j hj).qty r hrj
 
 /-- refine the group key by a component that is constant on the postings and on the rows -/
-theorem GroupSums.lift {K J : Type} [DecidableEq K] [DecidableEq J] {g g' : RPost → K} {posts rows : List RPost}
-    (h : GroupSums g g' posts rows) (f f' : RPost → J) (j : J)
+theorem GroupSums.lift {K J : Type} [DecidableEq K] [DecidableEq J] {vin vout : RPost → Value} {g g' : RPost → K}
+    {posts rows : List RPost} (h : GroupSums vin vout g g' posts rows) (f f' : RPost → J) (j : J)
     (hp : ∀ p ∈ posts, f p = j) (hr : ∀ r ∈ rows, f' r = j) :
-    GroupSums (fun p => (f p, g p)) (fun r => (f' r, g' r)) posts rows := by
+    GroupSums vin vout (fun p => (f p, g p)) (fun r => (f' r, g' r)) posts rows := by
   refine ⟨?_, ?_, ?_, ?_, h.total, h.qty⟩
   · intro r hr' c
     rw [h.each r hr' c]
@@ -256,12 +338,74 @@ theorem GroupSums.lift {K J : Type} [DecidableEq K] [DecidableEq J] {g g' : RPos
     rw [List.Nodup, List.pairwise_map] at this ⊢
     exact this.imp (fun hne e => hne (by simpa using (Prod.ext_iff.mp e).2))
 
+/-- Two regrouping stages in a row: when the second stage's key is a function `f`
+    of the group a first-stage row stands for, the result is the regrouping of
+    the original postings by `f ∘ grp`. -/
+theorem GroupSums.comp {K1 K2 : Type} [DecidableEq K1] [DecidableEq K2] {v0 v1 v2 : RPost → Value}
+    {k1 rk1 : RPost → K1} {k2 rk2 : RPost → K2} {posts rows1 rows2 : List RPost}
+    (G1 : GroupSums v0 v1 k1 rk1 posts rows1) (G2 : GroupSums v1 v2 k2 rk2 rows1 rows2)
+    (f : K1 → K2) (hf : ∀ r ∈ rows1, k2 r = f (rk1 r)) :
+    GroupSums v0 v2 (fun p => f (k1 p)) rk2 posts rows2 := by
+  refine ⟨?_, ?_, ?_, G2.nodup, fun c => (G2.total c).trans (G1.total c), G2.qty⟩
+  · intro r2 hr2 c
+    rw [G2.each r2 hr2 c]
+    -- S: the first-stage rows that go into r2
+    let S := rows1.filter (fun r1 => k2 r1 = rk2 r2)
+    let P := posts.filter (fun p => f (k1 p) = rk2 r2)
+    have hSn : (S.map rk1).Nodup := (G1.nodup.sublist ((List.filter_sublist).map rk1))
+    have hall : ∀ p ∈ P, k1 p ∈ S.map rk1 := by
+      intro p hp
+      have hp' := List.mem_filter.mp hp
+      obtain ⟨r1, hr1, he⟩ := G1.covered p hp'.1
+      refine List.mem_map.mpr ⟨r1, List.mem_filter.mpr ⟨hr1, ?_⟩, he⟩
+      rw [hf r1 hr1, he]; simpa using hp'.2
+    have h1 : sumDenBy v0 P c = wsum (fun p => (v0 p).den c) (P.filter (fun p => decide (k1 p ∈ S.map rk1))) := by
+      unfold sumDenBy
+      congr 1
+      symm
+      apply List.filter_eq_self.mpr
+      intro p hp; simpa using hall p hp
+    show sumDenBy v1 S c = sumDenBy v0 P c
+    rw [h1, wsum_filter_classes _ k1 (S.map rk1) hSn P, List.map_map]
+    unfold sumDenBy
+    have : ∀ (l : List RPost), (∀ r1 ∈ l, r1 ∈ S) →
+        wsum (fun p => (v1 p).den c) l =
+          lsum (l.map ((fun j => wsum (fun p => (v0 p).den c) (P.filter (fun p => k1 p = j))) ∘ rk1)) := by
+      intro l hl
+      induction l with
+      | nil => rfl
+      | cons r1 l ih =>
+        have hr1S := hl r1 (by simp)
+        have hr1 := (List.mem_filter.mp hr1S)
+        simp only [wsum, List.map_cons, lsum, Function.comp]
+        rw [ih (fun r hr => hl r (by simp [hr])), G1.each r1 hr1.1 c]
+        congr 1
+        unfold sumDenBy
+        congr 1
+        simp only [P, List.filter_filter]
+        apply List.filter_congr
+        intro p _
+        by_cases hk : k1 p = rk1 r1
+        · have h2 : f (rk1 r1) = rk2 r2 := by
+            rw [← hf r1 hr1.1]; simpa using hr1.2
+          simp [hk, h2]
+        · simp [hk]
+    exact this S (fun _ h => h)
+  · intro p hp
+    obtain ⟨r1, hr1, he1⟩ := G1.covered p hp
+    obtain ⟨r2, hr2, he2⟩ := G2.covered r1 hr1
+    exact ⟨r2, hr2, by rw [he2, hf r1 hr1, he1]⟩
+  · intro r2 hr2
+    obtain ⟨r1, hr1, he1⟩ := G2.noExtra r2 hr2
+    obtain ⟨p, hp, he⟩ := G1.noExtra r1 hr1
+    exact ⟨p, hp, by rw [he, ← hf r1 hr1, he1]⟩
+
 /-! ### day_of_week_posts -/
 
 /-- rows reported for weekday `i` -/
 def dowRowsOf (posts : List RPost) (i : Int) : List RPost :=
   match SubState.empty.addAll (dowBucket i posts) with
-  | .ok st => st.report (dayName i ++ "s")
+  | .ok st => st.report (dayName i ++ "s") (i.toNat + 1) (hasRealIn (posts.filter (fun p => Cal.weekday p.date ≤ i)))
   | .error _ => []
 
 theorem dowDays_eq (posts : List RPost) (is : List Int) (rows : List RPost)
@@ -295,26 +439,38 @@ theorem weekday_mem (n : Int) : Cal.weekday n ∈ [(0 : Int), 1, 2, 3, 4, 5, 6] 
   simp only [List.mem_cons, List.not_mem_nil, or_false]
   omega
 
-theorem dow_groups (posts rows : List RPost) (hq : AllQty posts) (h : dow posts = .ok rows) :
-    GroupSums (fun p => (Cal.weekday p.date, p.account)) (fun r => (Cal.weekday r.date, r.account)) posts rows := by
+theorem goodAmts_filter {ps : List RPost} (h : GoodAmts ps) (q : RPost → Bool) : GoodAmts (ps.filter q) :=
+  fun p hp => h p (List.mem_filter.mp hp).1
+
+/-- the rows `--dow` reports for weekday `j`, as group sums of that day's postings -/
+theorem dowRowsOf_groups (posts : List RPost) (hq : GoodAmts posts) (j : Int)
+    (hst : ∃ st, SubState.empty.addAll (dowBucket j posts) = .ok st) :
+    GroupSums rawAmt (fun r => r.value) (fun p => (Cal.weekday p.date, p.account)) (fun r => (Cal.weekday r.date, r.account))
+      (posts.filter (fun p => Cal.weekday p.date = j)) (dowRowsOf posts j) ∧
+    ∀ r ∈ dowRowsOf posts j, Generated (dayName j ++ "s") (j.toNat + 1) (minDate (dowBucket j posts)) r := by
+  obtain ⟨st, hst⟩ := hst
+  have hb : dowBucket j posts = posts.filter (fun p => decide (Cal.weekday p.date = j)) := rfl
+  obtain ⟨hg, hd⟩ := subState_report (dowBucket j posts) (goodAmts_filter hq _) st hst (dayName j ++ "s") (j.toNat + 1)
+    (hasRealIn (posts.filter (fun p => Cal.weekday p.date ≤ j)))
+  simp only [dowRowsOf, hst]
+  refine ⟨?_, hd⟩
+  rw [← hb]
+  apply hg.lift (fun p => Cal.weekday p.date) (fun r => Cal.weekday r.date) j
+  · intro p hp; simpa [dowBucket] using (List.mem_filter.mp hp).2
+  · intro r hr
+    obtain ⟨p, hp, _⟩ := hg.noExtra r hr
+    have hne : dowBucket j posts ≠ [] := List.ne_nil_of_mem hp
+    obtain ⟨q, hq', hqd⟩ := minDate_mem _ hne
+    rw [(hd r hr).date, ← hqd]
+    simpa [dowBucket] using (List.mem_filter.mp hq').2
+
+theorem dow_groups (posts rows : List RPost) (hq : GoodAmts posts) (h : dow posts = .ok rows) :
+    GroupSums rawAmt (fun r => r.value) (fun p => (Cal.weekday p.date, p.account)) (fun r => (Cal.weekday r.date, r.account))
+      posts rows := by
   obtain ⟨h1, h2⟩ := dowDays_eq posts _ rows h
   rw [h1]
-  apply groupSums_classes _ _ Prod.fst (fun p => Cal.weekday p.date) (fun _ => rfl) posts _ (by decide)
-  · intro j hj
-    obtain ⟨st, hst⟩ := h2 j hj
-    have hb : dowBucket j posts = posts.filter (fun p => decide (Cal.weekday p.date = j)) := rfl
-    have hqb : AllQty (dowBucket j posts) := fun p hp => hq p (List.mem_filter.mp hp).1
-    obtain ⟨hg, hd⟩ := subState_report (dowBucket j posts) hqb st hst (dayName j ++ "s")
-    simp only [dowRowsOf, hst]
-    rw [← hb]
-    apply hg.lift (fun p => Cal.weekday p.date) (fun r => Cal.weekday r.date) j
-    · intro p hp; simpa [dowBucket] using (List.mem_filter.mp hp).2
-    · intro r hr
-      obtain ⟨p, hp, _⟩ := hg.noExtra r hr
-      have hne : dowBucket j posts ≠ [] := List.ne_nil_of_mem hp
-      obtain ⟨q, hq', hqd⟩ := minDate_mem _ hne
-      rw [(hd r hr).2, ← hqd]
-      simpa [dowBucket] using (List.mem_filter.mp hq').2
+  apply groupSums_classes _ _ _ _ Prod.fst (fun p => Cal.weekday p.date) (fun _ => rfl) posts _ (by decide)
+  · intro j hj; exact (dowRowsOf_groups posts hq j (h2 j hj)).1
   · intro p _; exact weekday_mem p.date
 
 /-! ### by_payee_posts -/
@@ -371,40 +527,42 @@ theorem byPayeeAll_spec (ps : List RPost) (m m' : AMap SubState) (hn : (AMap.key
             rw [← hm1, AMap.get?_upd_other m p.payee k _ hk']
       · cases hm1
 
-theorem flatMap_keys {V : Type} (m : AMap V) (hn : (AMap.keys m).Nodup) (f : String × V → List RPost) (d : V) :
-    m.flatMap f = (AMap.keys m).flatMap (fun k => f (k, (m.get? k).getD d)) := by
-  have : ∀ e ∈ m, f e = f (e.1, (m.get? e.1).getD d) := by
-    intro e he
-    have := AMap.mem_get? hn (k := e.1) (v := e.2) he
-    rw [this]; rfl
-  simp only [AMap.keys, List.flatMap_def, List.map_map]
-  congr 1
-  apply List.map_congr_left
-  intro e he
-  exact this e he
+/-- rows `--by-payee` reports for payee `k` out of the map `m` -/
+def payeeRowsOf (posts : List RPost) (m : AMap SubState) (k : String) : List RPost :=
+  ((m.get? k).getD SubState.empty).report k ((amapKeys m).idxOf k + 1) (hasRealIn posts)
 
-theorem byPayee_groups (posts rows : List RPost) (hq : AllQty posts) (h : byPayee posts = .ok rows) :
-    GroupSums (fun p => (p.payee, p.account)) (fun r => (r.payee, r.account)) posts rows := by
+theorem byPayee_eq (posts rows : List RPost) (h : byPayee posts = .ok rows) :
+    ∃ m, byPayeeAll [] posts = .ok m ∧ rows = (AMap.keys m).flatMap (payeeRowsOf posts m) := by
   simp only [byPayee, bind, Except.bind] at h
   split at h
   · cases h
   · rename_i m hm
     simp only [pure, Except.pure, Except.ok.injEq] at h
-    subst h
-    obtain ⟨hn, hk, hs⟩ := byPayeeAll_spec posts [] m (by simp [AMap.keys]) hm
-    rw [flatMap_keys m hn (fun kv => kv.2.report kv.1) SubState.empty]
-    apply groupSums_classes _ _ Prod.fst (fun p => p.payee) (fun _ => rfl) posts _ hn
-    · intro k _
-      have hst := hs k
-      simp only [AMap.get?, Option.getD_none] at hst
-      have hqf : AllQty (posts.filter (fun p => decide (p.payee = k))) :=
-        fun p hp => hq p (List.mem_filter.mp hp).1
-      obtain ⟨hg, hd⟩ := subState_report _ hqf _ hst k
-      apply hg.lift (fun p => p.payee) (fun r => r.payee) k
-      · intro p hp; simpa using (List.mem_filter.mp hp).2
-      · intro r hr; exact (hd r hr).1
-    · intro p hp
-      exact (hk p.payee).mpr (Or.inr ⟨p, hp, rfl⟩)
+    exact ⟨m, hm, h.symm⟩
+
+theorem payeeRowsOf_groups (posts : List RPost) (hq : GoodAmts posts) (m : AMap SubState)
+    (hm : byPayeeAll [] posts = .ok m) (k : String) :
+    GroupSums rawAmt (fun r => r.value) (fun p => (p.payee, p.account)) (fun r => (r.payee, r.account))
+      (posts.filter (fun p => p.payee = k)) (payeeRowsOf posts m k) ∧
+    ∀ r ∈ payeeRowsOf posts m k,
+      Generated k ((amapKeys m).idxOf k + 1) (minDate (posts.filter (fun p => p.payee = k))) r := by
+  obtain ⟨_, _, hs⟩ := byPayeeAll_spec posts [] m (by simp [AMap.keys]) hm
+  have hst := hs k
+  simp only [AMap.get?, Option.getD_none] at hst
+  obtain ⟨hg, hd⟩ := subState_report _ (goodAmts_filter hq _) _ hst k ((amapKeys m).idxOf k + 1) (hasRealIn posts)
+  refine ⟨?_, hd⟩
+  apply hg.lift (fun p => p.payee) (fun r => r.payee) k
+  · intro p hp; simpa using (List.mem_filter.mp hp).2
+  · intro r hr; exact (hd r hr).payee
+
+theorem byPayee_groups (posts rows : List RPost) (hq : GoodAmts posts) (h : byPayee posts = .ok rows) :
+    GroupSums rawAmt (fun r => r.value) (fun p => (p.payee, p.account)) (fun r => (r.payee, r.account)) posts rows := by
+  obtain ⟨m, hm, rfl⟩ := byPayee_eq posts rows h
+  obtain ⟨hn, hk, _⟩ := byPayeeAll_spec posts [] m (by simp [AMap.keys]) hm
+  apply groupSums_classes _ _ _ _ Prod.fst (fun p => p.payee) (fun _ => rfl) posts _ hn
+  · intro k _; exact (payeeRowsOf_groups posts hq m hm k).1
+  · intro p hp
+    exact (hk p.payee).mpr (Or.inr ⟨p, hp, rfl⟩)
 
 /-! ### collapse_posts -/
 
@@ -501,14 +659,20 @@ theorem collapse_eq_runs (depth : Nat) (pass : Bool) (σ : AMap Value → AMap V
   have := collapse_fold depth pass σ posts { group := [], out := [] } (by simp)
   simpa [collapse] using this
 
+theorem castInt_den (v : Value) (c : Comm) : (castInt v).den c = v.den c := by
+  cases v <;> simp [castInt, Value.den, Amount.den, Amount.ofInt]
+
+theorem castInt_isQty (v : Value) (h : isQty v = true) : isQty (castInt v) = true := by
+  cases v <;> simp_all [castInt, isQty]
+
 theorem totalsStep_ok (c : Comm) :
-    StepOK (fun v : Value => isQty v = true) (fun p => isQty p.amount = true)
-      (fun v => v.den c) (fun p => p.amount.den c) totalsStep := by
+    StepOK (fun v : Value => isQty v = true) (fun p => isQty p.value = true)
+      (fun v => v.den c) (fun p => p.value.den c) totalsStep := by
   constructor
   · intro p hp
-    have h1 : vplus .void p.amount = p.amount := by simp [vplus, Value.add]
-    show isQty (totalsStep none p) = true ∧ (totalsStep none p).den c = p.amount.den c
-    have h2 : totalsStep none p = p.amount := h1
+    have h1 : vplus .void p.value = p.value := by simp [vplus, Value.add]
+    show isQty (totalsStep none p) = true ∧ (totalsStep none p).den c = p.value.den c
+    have h2 : totalsStep none p = p.value := h1
     rw [h2]
     exact ⟨hp, rfl⟩
   · intro v p hv hp
@@ -522,21 +686,12 @@ theorem sumBy_perm {V : Type} (μ : V → Rat) {a b : AMap V} (h : List.Perm a b
   | swap x y l => simp only [AMap.sumBy]; grind
   | trans _ _ ih1 ih2 => exact ih1.trans ih2
 
-theorem sumDen_map_sumBy' (m : AMap Value) (f : String × Value → RPost)
-    (hf : ∀ e, (f e).amount = e.2) (c : Comm) :
-    sumDen (m.map f) c = AMap.sumBy (fun v => v.den c) m := by
-  induction m with
-  | nil => rfl
-  | cons e m ih =>
-    simp only [List.map_cons, sumDen, wsum, AMap.sumBy, hf] at ih ⊢
-    rw [ih]
-
 /-- what collapse_posts reports for one transaction -/
 theorem collapseGroup_groups (depth : Nat) (pass : Bool) (σ : AMap Value → AMap Value)
     (hσ : ∀ m, (σ m).Perm m) (g : List RPost) (hq : AllQty g) (hg : g ≠ []) :
     (depth = 0 ∧ pass = true ∧ g.length = 1 ∧ collapseGroup depth pass σ g = g) ∨
-    (GroupSums (totalsKey depth) (fun r => r.account) g (collapseGroup depth pass σ g) ∧
-      ∀ r ∈ collapseGroup depth pass σ g, r.line = 0 ∧ r.date = minDate g ∧
+    (GroupSums (fun p => p.value) (fun r => r.value) (totalsKey depth) (fun r => r.account) g (collapseGroup depth pass σ g) ∧
+      ∀ r ∈ collapseGroup depth pass σ g, r.line = 0 ∧ r.date = minDate g ∧ r.amount = r.value ∧
         ∃ lastp, g.getLast? = some lastp ∧ r.payee = lastp.payee ∧ r.xid = lastp.xid) := by
   have hlast : g.getLast? = some (g.getLast hg) := List.getLast?_eq_some_getLast hg
   by_cases hs : depth = 0 ∧ pass = true ∧ g.length = 1
@@ -548,7 +703,7 @@ theorem collapseGroup_groups (depth : Nat) (pass : Bool) (σ : AMap Value → AM
   · right
     have hrows : collapseGroup depth pass σ g = (σ (totalsOf depth g)).map (fun kv =>
         { line := 0, xid := (g.getLast hg).xid, date := minDate g, payee := (g.getLast hg).payee,
-          account := kv.1, virt := false, amount := kv.2 }) := by
+          account := kv.1, virt := false, amount := castInt kv.2, value := castInt kv.2, vdate := maxDate g }) := by
       simp only [collapseGroup, hlast]
       rw [if_neg]
       intro h; exact hs ⟨h.1, by simpa using h.2.1, h.2.2⟩
@@ -558,12 +713,12 @@ theorem collapseGroup_groups (depth : Nat) (pass : Bool) (σ : AMap Value → AM
     rw [← hacc] at key
     have hn := (key "").1
     have hperm := hσ (totalsOf depth g)
-    have hmem : ∀ r ∈ collapseGroup depth pass σ g, ∃ kv ∈ totalsOf depth g, r.account = kv.1 ∧ r.amount = kv.2 ∧
-        r.line = 0 ∧ r.date = minDate g ∧ r.payee = (g.getLast hg).payee ∧ r.xid = (g.getLast hg).xid := by
+    have hmem : ∀ r ∈ collapseGroup depth pass σ g, ∃ kv ∈ totalsOf depth g, r.account = kv.1 ∧ r.value = castInt kv.2 ∧
+        r.line = 0 ∧ r.date = minDate g ∧ r.amount = r.value ∧ r.payee = (g.getLast hg).payee ∧ r.xid = (g.getLast hg).xid := by
       intro r hr
       rw [hrows] at hr
       obtain ⟨kv, hkv, rfl⟩ := List.mem_map.mp hr
-      exact ⟨kv, hperm.subset hkv, rfl, rfl, rfl, rfl, rfl, rfl⟩
+      exact ⟨kv, hperm.subset hkv, rfl, rfl, rfl, rfl, rfl, rfl, rfl⟩
     refine ⟨⟨?_, ?_, ?_, ?_, ?_, ?_⟩, ?_⟩
     · intro r hr c
       obtain ⟨kv, hkv, ha, hv', _⟩ := hmem r hr
@@ -571,13 +726,14 @@ theorem collapseGroup_groups (depth : Nat) (pass : Bool) (σ : AMap Value → AM
       have hgk := AMap.mem_get? hn (k := kv.1) (v := kv.2) hkv
       have := h3 kv.1
       simp only [muAt, hgk, Option.map_some, Option.getD_some, AMap.get?, Option.map_none, Option.getD_none] at this
-      rw [hv', ha, this]
-      simp only [sumDen]; grind
+      show r.value.den c = _
+      rw [hv', castInt_den, ha, this]
+      simp only [sumDenBy]; grind
     · intro p hp'
       have := ((key "").2.2.2.1 (totalsKey depth p)).mpr (Or.inr ⟨p, hp', rfl⟩)
       obtain ⟨kv, hkv, he⟩ := List.mem_map.mp this
       refine ⟨{ line := 0, xid := (g.getLast hg).xid, date := minDate g, payee := (g.getLast hg).payee,
-                account := kv.1, virt := false, amount := kv.2 }, ?_, he⟩
+                account := kv.1, virt := false, amount := castInt kv.2, value := castInt kv.2, vdate := maxDate g }, ?_, he⟩
       rw [hrows]; exact List.mem_map.mpr ⟨kv, hperm.symm.subset hkv, rfl⟩
     · intro r hr
       obtain ⟨kv, hkv, ha, _⟩ := hmem r hr
@@ -588,22 +744,24 @@ theorem collapseGroup_groups (depth : Nat) (pass : Bool) (σ : AMap Value → AM
     · rw [hrows, List.map_map]
       have : (List.map ((fun r : RPost => r.account) ∘ fun kv : String × Value =>
           ({ line := 0, xid := (g.getLast hg).xid, date := minDate g, payee := (g.getLast hg).payee,
-             account := kv.1, virt := false, amount := kv.2 } : RPost)) (σ (totalsOf depth g))) =
+             account := kv.1, virt := false, amount := castInt kv.2, value := castInt kv.2, vdate := maxDate g } : RPost)) (σ (totalsOf depth g))) =
           AMap.keys (σ (totalsOf depth g)) := rfl
       rw [this]
       exact (List.Perm.map _ hperm).nodup_iff.mpr hn
     · intro c
       obtain ⟨_, _, _, _, h5⟩ := key c
-      rw [hrows, sumDen_map_sumBy' _ _ (fun _ => rfl), sumBy_perm _ hperm, h5]
-      simp only [AMap.sumBy, sumDen]; grind
+      show sumDen _ c = _
+      rw [hrows, sumDen_map_sumBy _ _ (fun v => v.den c) c (fun e => castInt_den e.2 c), sumBy_perm _ hperm, h5]
+      simp only [AMap.sumBy, sumDenBy]; grind
     · intro r hr
       obtain ⟨kv, hkv, _, hv', _⟩ := hmem r hr
       have hgk := AMap.mem_get? hn (k := kv.1) (v := kv.2) hkv
+      show isQty r.value = true
       rw [hv']
-      exact (key "").2.1 kv.1 kv.2 hgk
+      exact castInt_isQty _ ((key "").2.1 kv.1 kv.2 hgk)
     · intro r hr
-      obtain ⟨_, _, _, _, h1, h2, h3, h4⟩ := hmem r hr
-      exact ⟨h1, h2, _, hlast, h3, h4⟩
+      obtain ⟨_, _, _, _, h1, h2, h2', h3, h4⟩ := hmem r hr
+      exact ⟨h1, h2, h2', _, hlast, h3, h4⟩
 
 theorem collapse_total (depth : Nat) (pass : Bool) (σ : AMap Value → AMap Value)
     (hσ : ∀ m, (σ m).Perm m) (posts : List RPost) (hq : AllQty posts) (c : Comm) :
@@ -619,7 +777,7 @@ theorem collapse_total (depth : Nat) (pass : Bool) (σ : AMap Value → AMap Val
     · exact ⟨h1.total c, h1.qty⟩
   constructor
   · conv => rhs; rw [← runs_flatten pxid posts]
-    simp only [sumDen, wsum_flatten, List.map_map]
+    simp only [sumDen, sumDenBy, wsum_flatten, List.map_map]
     congr 1
     apply List.map_congr_left
     intro g hg
@@ -628,6 +786,35 @@ theorem collapse_total (depth : Nat) (pass : Bool) (σ : AMap Value → AMap Val
     obtain ⟨l, hl, hrl⟩ := List.mem_flatten.mp hr
     obtain ⟨g, hg, rfl⟩ := List.mem_map.mp hl
     exact (heach g hg).2 r hrl
+
+
+/-! ### blocks of one transaction each are the runs of their concatenation -/
+
+theorem runs_flatMap_blocks {J : Type} (js : List J) (f : J → List RPost) (idf : J → Nat)
+    (hconst : ∀ j ∈ js, ∀ p ∈ f j, p.xid = idf j) (hinj : js.Pairwise (fun a b => idf a ≠ idf b)) :
+    runs pxid (js.flatMap f) = (js.map f).filter (fun g => !g.isEmpty) := by
+  induction js with
+  | nil => rfl
+  | cons x xs ih =>
+    have hd' := List.pairwise_cons.mp hinj
+    have ih' := ih (fun j hj => hconst j (by simp [hj])) hd'.2
+    simp only [List.flatMap_cons, List.map_cons, List.filter_cons]
+    cases hg : f x with
+    | nil => simp [ih']
+    | cons a g =>
+      have hxid := hconst x (by simp)
+      rw [hg] at hxid
+      have hb : runs pxid ((a :: g) ++ xs.flatMap f) = runs pxid (a :: g) ++ runs pxid (xs.flatMap f) := by
+        apply runs_append_boundary
+        intro u hu v hv
+        have hu' : u ∈ a :: g := List.mem_of_getLast? hu
+        have hv' : v ∈ xs.flatMap f := List.mem_of_head? hv
+        obtain ⟨y, hy, hvy⟩ := List.mem_flatMap.mp hv'
+        show u.xid ≠ v.xid
+        rw [hxid u hu', hconst y (by simp [hy]) v hvy]
+        exact hd'.1 y hy
+      rw [hb, ih', runs_const a g (fun q hq => by rw [hxid q (by simp [hq]), hxid a (by simp)])]
+      simp
 
 /-! ### in the plain register the runs are the transactions -/
 
@@ -641,36 +828,378 @@ theorem xactPosts_xid (f : Filter) (x : Xact) : ∀ p ∈ xactPosts f x, p.xid =
     · cases hq
   · cases hq
 
-theorem plainPosts_xid (f : Filter) (xs : List Xact) :
-    ∀ p ∈ xs.flatMap (xactPosts f), ∃ x ∈ xs, p.xid = x.line := by
-  intro p hp
-  obtain ⟨x, hx, hpx⟩ := List.mem_flatMap.mp hp
-  exact ⟨x, hx, xactPosts_xid f x p hpx⟩
-
 theorem plain_runs_aux (f : Filter) (xs : List Xact) (hd : xs.Pairwise (fun a b => a.line ≠ b.line)) :
-    runs pxid (xs.flatMap (xactPosts f)) = (xs.map (xactPosts f)).filter (fun g => !g.isEmpty) := by
-  induction xs with
+    runs pxid (xs.flatMap (xactPosts f)) = (xs.map (xactPosts f)).filter (fun g => !g.isEmpty) :=
+  runs_flatMap_blocks xs (xactPosts f) (fun x => x.line) (fun x _ => xactPosts_xid f x) hd
+
+/-! ### the totals map is kept in key order -/
+
+theorem AMap.insertSorted_sorted {V : Type} (m : AMap V) (k : String) (v : V)
+    (hs : (AMap.keys m).Pairwise (· < ·)) (hk : k ∉ AMap.keys m) :
+    (AMap.keys (m.insertSorted k v)).Pairwise (· < ·) := by
+  induction m with
+  | nil => simp [AMap.insertSorted, AMap.keys]
+  | cons e m ih =>
+    obtain ⟨k', v'⟩ := e
+    simp only [AMap.keys, List.map_cons, List.pairwise_cons, List.mem_cons, not_or] at hs hk
+    simp only [AMap.insertSorted]
+    split
+    · rename_i hlt
+      simp only [AMap.keys, List.map_cons, List.pairwise_cons, List.mem_cons]
+      refine ⟨?_, hs.1, hs.2⟩
+      rintro x (rfl | hx)
+      · exact hlt
+      · exact String.lt_trans hlt (hs.1 x hx)
+    · rename_i hnlt
+      have hlt' : k' < k := by
+        by_cases h : k' < k
+        · exact h
+        · exact absurd (String.le_antisymm (String.not_lt.mp h) (String.not_lt.mp hnlt)) hk.1
+      have ih' := ih hs.2 hk.2
+      simp only [AMap.keys, List.map_cons, List.pairwise_cons]
+      refine ⟨?_, ih'⟩
+      intro x hx
+      have := (AMap.keys_insertSorted m k v).subset hx
+      rcases List.mem_cons.mp this with rfl | hx'
+      · exact hlt'
+      · exact hs.1 x hx'
+
+theorem AMap.upd_sorted {V : Type} (m : AMap V) (k : String) (f : Option V → V)
+    (hs : (AMap.keys m).Pairwise (· < ·)) : (AMap.keys (m.upd k f)).Pairwise (· < ·) := by
+  cases h : m.get? k with
+  | none =>
+    rw [AMap.upd_none m k f h]
+    exact AMap.insertSorted_sorted m k _ hs ((AMap.get?_none_iff m k).mp h)
+  | some v => rw [AMap.upd_some m k f v h, AMap.keys_setAt]; exact hs
+
+theorem accum_sorted {V : Type} (key : RPost → String) (step : Option V → RPost → V) (ps : List RPost) (m : AMap V)
+    (hs : (AMap.keys m).Pairwise (· < ·)) : (AMap.keys (accum key step m ps)).Pairwise (· < ·) := by
+  induction ps generalizing m with
+  | nil => exact hs
+  | cons p ps ih => exact ih _ (AMap.upd_sorted m _ _ hs)
+
+/-- the rows collapse_posts reports for one transaction under `--depth N` come in strictly ascending account order -/
+theorem collapseGroup_rows_sorted (depth : Nat) (g : List RPost) :
+    ((collapseGroup depth false id g).map (fun r => r.account)).Pairwise (· < ·) := by
+  unfold collapseGroup
+  cases g.getLast? with
+  | none => simp
+  | some lastp =>
+    have hne : ¬ (depth = 0 ∧ false = true ∧ g.length = 1) := by simp
+    simp only [hne, if_false, id, List.map_map]
+    have : totalsOf depth g = accum (totalsKey depth) totalsStep [] g := rfl
+    have hs := accum_sorted (totalsKey depth) totalsStep g ([] : AMap Value) (by simp [AMap.keys])
+    rw [← this] at hs
+    exact hs
+
+/-! ### two regrouping stages in a row -/
+
+/-- key of collapse's totals map as a function of the account name -/
+def totalsKeyOf (depth : Nat) (a : String) : String := if depth = 0 then "<Total>" else depthAccount depth a
+
+theorem totalsKey_eq (depth : Nat) (p : RPost) : totalsKey depth p = totalsKeyOf depth p.account := rfl
+
+/-- rows that are the output of a subtotal-family stage and carry no compound value can be fed to the next one -/
+theorem goodAmts_of_generated {rows : List RPost} (hsame : ∀ r ∈ rows, r.amount = r.value)
+    (hq : ∀ r ∈ rows, isQty r.value = true) (hnc : noCompound rows = true) :
+    GoodAmts rows ∧ ∀ r ∈ rows, rawAmt r = r.value := by
+  have h : ∀ r ∈ rows, ∃ v, subAmt r = some v := by
+    intro r hr
+    have := List.all_eq_true.mp hnc r hr
+    exact Option.isSome_iff_exists.mp this
+  constructor
+  · intro r hr
+    obtain ⟨v, hv⟩ := h r hr
+    exact ⟨v, hv, by rw [← subAmt_some hv, hsame r hr]; exact hq r hr⟩
+  · intro r hr
+    obtain ⟨v, hv⟩ := h r hr
+    rw [rawAmt_eq_amount hv, hsame r hr]
+
+theorem byPayee_same (posts rows : List RPost) (hq : GoodAmts posts) (h : byPayee posts = .ok rows) :
+    ∀ r ∈ rows, r.amount = r.value := by
+  obtain ⟨m, hm, rfl⟩ := byPayee_eq posts rows h
+  intro r hr
+  obtain ⟨k, _, hrk⟩ := List.mem_flatMap.mp hr
+  exact ((payeeRowsOf_groups posts hq m hm k).2 r hrk).same
+
+theorem dow_same (posts rows : List RPost) (hq : GoodAmts posts) (h : dow posts = .ok rows) :
+    ∀ r ∈ rows, r.amount = r.value := by
+  obtain ⟨h1, h2⟩ := dowDays_eq posts _ rows h
+  subst h1
+  intro r hr
+  obtain ⟨j, hj, hrj⟩ := List.mem_flatMap.mp hr
+  exact ((dowRowsOf_groups posts hq j (h2 j hj)).2 r hrj).same
+
+/-- `--by-payee` (or `--dow`) followed by `--subtotal`: when no row handed over is a
+    compound one, the result is the plain `--subtotal` grouping of the original postings -/
+theorem stage_then_subtotal {K : Type} [DecidableEq K] {k1 rk1 : RPost → K} (acc : K → String)
+    (posts r1 r2 : List RPost)
+    (G1 : GroupSums rawAmt (fun r => r.value) k1 rk1 posts r1)
+    (hacc : ∀ r ∈ r1, r.account = acc (rk1 r))
+    (hsame : ∀ r ∈ r1, r.amount = r.value) (hnc : noCompound r1 = true) (h2 : subtotal r1 = .ok r2) :
+    GroupSums rawAmt (fun r => r.value) (fun p => acc (k1 p)) (fun r => r.account) posts r2 := by
+  obtain ⟨hg1, hraw⟩ := goodAmts_of_generated hsame G1.qty hnc
+  have G2 := ((subtotal_groups r1 r2 hg1 h2).1).congr_vin hraw
+  exact G1.comp G2 acc hacc
+
+theorem byPayee_subtotal_groups (posts r1 r2 : List RPost) (hq : GoodAmts posts) (h1 : byPayee posts = .ok r1)
+    (hnc : noCompound r1 = true) (h2 : subtotal r1 = .ok r2) :
+    GroupSums rawAmt (fun r => r.value) (fun p => p.account) (fun r => r.account) posts r2 :=
+  stage_then_subtotal Prod.snd posts r1 r2 (byPayee_groups posts r1 hq h1) (fun _ _ => rfl)
+    (byPayee_same posts r1 hq h1) hnc h2
+
+theorem dow_subtotal_groups (posts r1 r2 : List RPost) (hq : GoodAmts posts) (h1 : dow posts = .ok r1)
+    (hnc : noCompound r1 = true) (h2 : subtotal r1 = .ok r2) :
+    GroupSums rawAmt (fun r => r.value) (fun p => p.account) (fun r => r.account) posts r2 :=
+  stage_then_subtotal Prod.snd posts r1 r2 (dow_groups posts r1 hq h1) (fun _ _ => rfl)
+    (dow_same posts r1 hq h1) hnc h2
+
+/-- `--subtotal` followed by collapse_posts (`--collapse`, `--depth N`): the subtotal rows are one
+    transaction, so the outcome is the original postings grouped by the ancestor account at depth N
+    (by nothing at all for N = 0), unless `--collapse` passes a single row through. -/
+theorem subtotal_collapse_groups (depth : Nat) (pass : Bool) (posts r1 : List RPost) (hq : GoodAmts posts)
+    (h1 : subtotal posts = .ok r1) :
+    (depth = 0 ∧ pass = true ∧ r1.length = 1 ∧ collapse depth pass id r1 = r1) ∨
+    GroupSums rawAmt (fun r => r.value) (fun p => totalsKeyOf depth p.account) (fun r => r.account) posts
+      (collapse depth pass id r1) := by
+  obtain ⟨G1, hx⟩ := subtotal_groups posts r1 hq h1
+  cases hr : r1 with
+  | nil =>
+    right
+    subst hr
+    have hp : posts = [] := by
+      cases posts with
+      | nil => rfl
+      | cons p ps => obtain ⟨r, hr', _⟩ := G1.covered p (by simp); simp at hr'
+    subst hp
+    exact ⟨by simp [collapse, collapseGroup], by simp, by simp [collapse, collapseGroup], by simp [collapse, collapseGroup],
+           fun c => rfl, by simp [collapse, collapseGroup]⟩
+  | cons a g =>
+    have hruns : runs pxid (a :: g) = [a :: g] := by
+      apply runs_const
+      intro q hq'
+      show q.xid = a.xid
+      rw [(hx q (by rw [hr]; simp [hq'])).1, (hx a (by rw [hr]; simp)).1]
+    have hcol : collapse depth pass id (a :: g) = collapseGroup depth pass id (a :: g) := by
+      rw [collapse_eq_runs, hruns]; simp
+    have hq1 : AllQty (a :: g) := by rw [← hr]; exact G1.qty
+    rw [hcol]
+    rcases collapseGroup_groups depth pass id (fun _ => List.Perm.refl _) (a :: g) hq1 (by simp) with
+      ⟨h0, hp, hl, he⟩ | ⟨G2, _⟩
+    · exact Or.inl ⟨h0, hp, hl, he⟩
+    · right
+      rw [hr] at G1
+      exact G1.comp G2 (totalsKeyOf depth) (fun r _ => totalsKey_eq depth r)
+
+theorem flatten_map_filter_nonempty (cg : List RPost → List RPost) (hcg : cg [] = []) (l : List (List RPost)) :
+    ((l.filter (fun g => !g.isEmpty)).map cg).flatten = (l.map cg).flatten := by
+  induction l with
   | nil => rfl
-  | cons x xs ih =>
-    have hd' := List.pairwise_cons.mp hd
-    simp only [List.flatMap_cons, List.map_cons, List.filter_cons]
-    cases hg : xactPosts f x with
-    | nil => simp [ih hd'.2]
+  | cons g l ih =>
+    cases g with
+    | nil => simp [hcg, ih]
+    | cons a g => simp [ih]
+
+theorem groupSums_nil {K : Type} [DecidableEq K] (vin vout : RPost → Value) (grp rowKey : RPost → K) :
+    GroupSums vin vout grp rowKey [] [] :=
+  ⟨by simp, by simp, by simp, by simp, fun _ => rfl, by simp⟩
+
+/-- blocks of rows, one transaction per class `j` (as --by-payee and --dow emit them), through
+    collapse_posts with `--depth N`, N ≥ 1: every class is regrouped by the ancestor account at depth N -/
+theorem blocks_depth_groups {J : Type} [DecidableEq J] (n : Nat) (hn : n ≠ 0) (posts : List RPost)
+    (js : List J) (hnd : js.Nodup) (rowsOf : J → List RPost) (idf : J → Nat) (cls rcls : RPost → J)
+    (hG : ∀ j ∈ js, GroupSums rawAmt (fun r => r.value) (fun p => (cls p, p.account)) (fun r => (rcls r, r.account))
+            (posts.filter (fun p => cls p = j)) (rowsOf j))
+    (hx : ∀ j ∈ js, ∀ r ∈ rowsOf j, r.xid = idf j)
+    (hinj : js.Pairwise (fun a b => idf a ≠ idf b))
+    (hstable : ∀ j ∈ js, ∀ r ∈ collapseGroup n false id (rowsOf j), rcls r = j)
+    (hall : ∀ p ∈ posts, cls p ∈ js) :
+    GroupSums rawAmt (fun r => r.value) (fun p => (cls p, depthAccount n p.account)) (fun r => (rcls r, r.account))
+      posts (collapse n false id (js.flatMap rowsOf)) := by
+  have hcol : collapse n false id (js.flatMap rowsOf) = js.flatMap (fun j => collapseGroup n false id (rowsOf j)) := by
+    rw [collapse_eq_runs, runs_flatMap_blocks js rowsOf idf hx hinj,
+      flatten_map_filter_nonempty _ (collapseGroup_nil n false id), List.map_map, List.flatMap_def]
+    rfl
+  rw [hcol]
+  apply groupSums_classes _ _ _ _ Prod.fst cls (fun _ => rfl) posts js hnd
+  · intro j hj
+    have G1 := hG j hj
+    cases hb : rowsOf j with
+    | nil =>
+      have hp : posts.filter (fun p => decide (cls p = j)) = [] := by
+        cases hf : posts.filter (fun p => decide (cls p = j)) with
+        | nil => rfl
+        | cons p ps =>
+          rw [hf, hb] at G1
+          obtain ⟨r, hr', _⟩ := G1.covered p (by simp); simp at hr'
+      rw [hp, collapseGroup_nil]
+      exact groupSums_nil _ _ _ _
     | cons a g =>
-      have hxid := xactPosts_xid f x
-      rw [hg] at hxid
-      have hb : runs pxid ((a :: g) ++ xs.flatMap (xactPosts f)) =
-          runs pxid (a :: g) ++ runs pxid (xs.flatMap (xactPosts f)) := by
-        apply runs_append_boundary
-        intro u hu v hv
-        have hu' : u ∈ a :: g := List.mem_of_getLast? hu
-        have hv' : v ∈ xs.flatMap (xactPosts f) := List.mem_of_head? hv
-        obtain ⟨y, hy, hvy⟩ := plainPosts_xid f xs v hv'
-        show u.xid ≠ v.xid
-        rw [hxid u hu', hvy]
-        exact hd'.1 y hy
-      rw [hb, ih hd'.2, runs_const a g (fun q hq => by rw [hxid q (by simp [hq]), hxid a (by simp)])]
-      simp
+      have hq1 : AllQty (a :: g) := by rw [← hb]; exact G1.qty
+      rcases collapseGroup_groups n false id (fun _ => List.Perm.refl _) (a :: g) hq1 (by simp) with
+        ⟨_, hp, _⟩ | ⟨G2, _⟩
+      · cases hp
+      · have hblock : ∀ r ∈ a :: g, rcls r = j := by
+          intro r hr
+          rw [← hb] at hr
+          obtain ⟨p, hp, he⟩ := G1.noExtra r hr
+          have : cls p = rcls r := (Prod.ext_iff.mp he).1
+          rw [← this]; simpa using (List.mem_filter.mp hp).2
+        have hst := hstable j hj
+        rw [hb] at hst
+        have G2' := G2.lift rcls rcls j hblock hst
+        rw [hb] at G1
+        have G := G1.comp G2' (fun pa => (pa.1, totalsKeyOf n pa.2)) (fun r _ => rfl)
+        have hkey : (fun p : RPost => (fun pa : J × String => (pa.1, totalsKeyOf n pa.2)) (cls p, p.account)) =
+            (fun p => (cls p, depthAccount n p.account)) := by
+          funext p; simp [totalsKeyOf, hn]
+        rw [hkey] at G
+        exact G
+  · exact hall
+
+theorem byPayee_depth_groups (n : Nat) (hn : n ≠ 0) (posts r1 : List RPost) (hq : GoodAmts posts)
+    (h1 : byPayee posts = .ok r1) :
+    GroupSums rawAmt (fun r => r.value) (fun p => (p.payee, depthAccount n p.account)) (fun r => (r.payee, r.account))
+      posts (collapse n false id r1) := by
+  obtain ⟨m, hm, rfl⟩ := byPayee_eq posts r1 h1
+  obtain ⟨hnd, hk, _⟩ := byPayeeAll_spec posts [] m (by simp [AMap.keys]) hm
+  apply blocks_depth_groups n hn posts (AMap.keys m) hnd (payeeRowsOf posts m)
+    (fun k => (amapKeys m).idxOf k + 1) (fun p => p.payee) (fun r => r.payee)
+  · intro k _; exact (payeeRowsOf_groups posts hq m hm k).1
+  · intro k _ r hr; exact ((payeeRowsOf_groups posts hq m hm k).2 r hr).xid
+  · have hnd' : (AMap.keys m).Pairwise (· ≠ ·) := hnd
+    apply hnd'.imp_of_mem
+    intro a b ha hb hne he
+    apply hne
+    have ha' := List.idxOf_lt_length_of_mem ha
+    have hb' := List.idxOf_lt_length_of_mem hb
+    have e : (AMap.keys m).idxOf a = (AMap.keys m).idxOf b := by
+      have : (amapKeys m) = AMap.keys m := rfl
+      rw [this] at he; omega
+    have h1 := List.getElem_idxOf ha'
+    have h2 := List.getElem_idxOf hb'
+    rw [← h1, ← h2]
+    simp [e]
+  · intro k _ r hr
+    cases hb : payeeRowsOf posts m k with
+    | nil => rw [hb, collapseGroup_nil] at hr; simp at hr
+    | cons a g =>
+      rw [hb] at hr
+      have hgen := (payeeRowsOf_groups posts hq m hm k).2
+      rw [hb] at hgen
+      have hq1 : AllQty (a :: g) := by
+        have := (payeeRowsOf_groups posts hq m hm k).1.qty
+        rw [hb] at this; exact this
+      rcases collapseGroup_groups n false id (fun _ => List.Perm.refl _) (a :: g) hq1 (by simp) with
+        ⟨_, hp, _⟩ | ⟨_, hrows⟩
+      · cases hp
+      · obtain ⟨_, _, _, lastp, hl, hpay, _⟩ := hrows r hr
+        have hmem : lastp ∈ a :: g := List.mem_of_getLast? hl
+        show r.payee = k
+        rw [hpay]; exact (hgen lastp hmem).payee
+  · intro p hp
+    exact (hk p.payee).mpr (Or.inr ⟨p, hp, rfl⟩)
+
+theorem minDate_const (d : Int) (ps : List RPost) (hne : ps ≠ []) (h : ∀ p ∈ ps, p.date = d) : minDate ps = d := by
+  obtain ⟨p, hp, he⟩ := minDate_mem ps hne
+  rw [← he]; exact h p hp
+
+theorem dow_depth_groups (n : Nat) (hn : n ≠ 0) (posts r1 : List RPost) (hq : GoodAmts posts)
+    (h1 : dow posts = .ok r1) :
+    GroupSums rawAmt (fun r => r.value) (fun p => (Cal.weekday p.date, depthAccount n p.account))
+      (fun r => (Cal.weekday r.date, r.account)) posts (collapse n false id r1) := by
+  obtain ⟨he, hst⟩ := dowDays_eq posts _ r1 h1
+  subst he
+  apply blocks_depth_groups n hn posts [0, 1, 2, 3, 4, 5, 6] (by decide) (dowRowsOf posts)
+    (fun i : Int => i.toNat + 1) (fun p => Cal.weekday p.date) (fun r => Cal.weekday r.date)
+  · intro j hj; exact (dowRowsOf_groups posts hq j (hst j hj)).1
+  · intro j hj r hr; exact ((dowRowsOf_groups posts hq j (hst j hj)).2 r hr).xid
+  · decide
+  · intro j hj r hr
+    cases hb : dowRowsOf posts j with
+    | nil => rw [hb, collapseGroup_nil] at hr; simp at hr
+    | cons a g =>
+      rw [hb] at hr
+      obtain ⟨G, hgen⟩ := dowRowsOf_groups posts hq j (hst j hj)
+      rw [hb] at hgen G
+      have hq1 : AllQty (a :: g) := G.qty
+      rcases collapseGroup_groups n false id (fun _ => List.Perm.refl _) (a :: g) hq1 (by simp) with
+        ⟨_, hp, _⟩ | ⟨_, hrows⟩
+      · cases hp
+      · obtain ⟨_, hdate, _⟩ := hrows r hr
+        have hconst : minDate (a :: g) = minDate (dowBucket j posts) :=
+          minDate_const _ (a :: g) (by simp) (fun p hp => (hgen p hp).date)
+        -- the weekday of the group's date is j: the row `a` stands for a posting of that day
+        obtain ⟨p, hp, hpe⟩ := G.noExtra a (by simp)
+        have h1 : Cal.weekday a.date = j := by
+          have h3 : Cal.weekday p.date = Cal.weekday a.date := (Prod.ext_iff.mp hpe).1
+          rw [← h3]; simpa using (List.mem_filter.mp hp).2
+        show Cal.weekday r.date = j
+        rw [hdate, hconst, ← (hgen a (by simp)).date]; exact h1
+  · intro p _; exact weekday_mem p.date
+
+/-! ### the grand total through all regrouping stages -/
+
+theorem sumDen_eq_of_raw {ps : List RPost} (h : ∀ p ∈ ps, rawAmt p = p.value) (c : Comm) :
+    sumDenBy rawAmt ps c = sumDen ps c := sumDenBy_congr h c
+
+/-- Whatever subset of --dow | --by-payee, --subtotal, --collapse / --depth N is
+    given, the per-commodity sum of the rows equals that of the postings, provided
+    subtotal_posts is handed amounts it reads correctly: `hfirst` – the first
+    subtotal-family stage sees single amounts whose valuation is the amount
+    itself; `hmid` – no compound row goes from --dow or --by-payee to --subtotal. -/
+theorem regroup_total (o : Opts) (posts rows : List RPost) (h : regroup o posts = .ok rows)
+    (hq : AllQty posts)
+    (hfirst : (o.pre ≠ .none ∨ o.subtotal = true) → GoodAmts posts ∧ ∀ p ∈ posts, rawAmt p = p.value)
+    (hmid : o.pre ≠ .none → o.subtotal = true → ∀ s1, preStage o posts = .ok s1 → noCompound s1 = true)
+    (c : Comm) : sumDen rows c = sumDen posts c ∧ AllQty rows := by
+  unfold regroup at h
+  cases h1 : preStage o posts with
+  | error e => simp [h1] at h
+  | ok s1 =>
+    simp only [h1] at h
+    cases h2 : subStage o s1 with
+    | error e => simp [h2] at h
+    | ok s2 =>
+      simp only [h2, Except.ok.injEq] at h
+      subst h
+      -- stage 1
+      have st1 : sumDen s1 c = sumDen posts c ∧ AllQty s1 ∧
+          (o.pre ≠ .none → ∀ r ∈ s1, r.amount = r.value) := by
+        unfold preStage at h1
+        cases hp : o.pre with
+        | none => simp only [hp, Except.ok.injEq] at h1; subst h1; exact ⟨rfl, hq, fun h => absurd rfl h⟩
+        | dow =>
+          simp only [hp] at h1
+          obtain ⟨hg, hraw⟩ := hfirst (Or.inl (by simp [hp]))
+          have G := dow_groups posts s1 hg h1
+          exact ⟨(G.total c).trans (sumDen_eq_of_raw hraw c), G.qty, fun _ => dow_same posts s1 hg h1⟩
+        | byPayee =>
+          simp only [hp] at h1
+          obtain ⟨hg, hraw⟩ := hfirst (Or.inl (by simp [hp]))
+          have G := byPayee_groups posts s1 hg h1
+          exact ⟨(G.total c).trans (sumDen_eq_of_raw hraw c), G.qty, fun _ => byPayee_same posts s1 hg h1⟩
+      -- stage 2
+      have st2 : sumDen s2 c = sumDen s1 c ∧ AllQty s2 := by
+        unfold subStage at h2
+        by_cases hs : o.subtotal = true
+        · simp only [hs, if_true] at h2
+          have hgood : GoodAmts s1 ∧ ∀ r ∈ s1, rawAmt r = r.value := by
+            by_cases hp : o.pre = .none
+            · have : s1 = posts := by
+                unfold preStage at h1; simp only [hp, Except.ok.injEq] at h1; exact h1.symm
+              rw [this]; exact hfirst (Or.inr hs)
+            · exact goodAmts_of_generated (st1.2.2 hp) st1.2.1 (hmid hp hs s1 h1)
+          have G := (subtotal_groups s1 s2 hgood.1 h2).1
+          exact ⟨(G.total c).trans (sumDen_eq_of_raw hgood.2 c), G.qty⟩
+        · simp only [hs, Bool.false_eq_true, if_false, Except.ok.injEq] at h2
+          subst h2; exact ⟨rfl, st1.2.1⟩
+      -- stage 3
+      unfold colStage
+      split
+      · have := collapse_total (o.depth.getD 0) (o.collapse && o.depth.isNone) id (fun _ => List.Perm.refl _) s2 st2.2 c
+        exact ⟨this.1.trans (st2.1.trans st1.1), this.2⟩
+      · exact ⟨st2.1.trans st1.1, st2.2⟩
 
 /-! ### a sample used by the non-vacuity examples of Props/C17 -/
 
@@ -678,7 +1207,8 @@ theorem plain_runs_aux (f : Filter) (xs : List Xact) (hd : xs.Pairwise (fun a b 
 def sample : List RPost :=
   let mk (line xid : Nat) (d : Int) (payee acct : String) (q : Rat) (comm : String) : RPost :=
     { line := line, xid := xid, date := d, payee := payee, account := acct, virt := false,
-      amount := .amt { q := q, prec := 2, keep := false, comm := comm } }
+      amount := .amt { q := q, prec := 2, keep := false, comm := comm },
+      value := .amt { q := q, prec := 2, keep := false, comm := comm }, vdate := d }
   [mk 2 1 18263 "b" "Expenses:Food" 10 "$", mk 3 1 18263 "b" "Assets:Cash" (-10) "$",
    mk 6 5 18262 "a" "Expenses:Food" 5 "EUR", mk 7 5 18262 "a" "Expenses:Rent" 7 "$",
    mk 8 5 18262 "a" "Assets:Cash" (-5) "EUR", mk 9 5 18262 "a" "Assets:Cash" (-7) "$",
@@ -688,6 +1218,11 @@ theorem sample_allQty : AllQty sample := by
   intro p hp
   simp only [sample, List.mem_cons, List.not_mem_nil, or_false] at hp
   rcases hp with rfl | rfl | rfl | rfl | rfl | rfl | rfl | rfl <;> rfl
+
+theorem sample_goodAmts : GoodAmts sample := by
+  intro p hp
+  simp only [sample, List.mem_cons, List.not_mem_nil, or_false] at hp
+  rcases hp with rfl | rfl | rfl | rfl | rfl | rfl | rfl | rfl <;> exact ⟨_, rfl, rfl⟩
 
 end Regroup
 end Ledger
